@@ -21,3 +21,9 @@ def run(ctx):
     effect_scan(ctx, 'R-EFF-NAMED', [r for r in EFF_LEAK if r[0].startswith('tempfile')], what='persistent temp files')
     txn_provenance(ctx)
     statics_rule(ctx)
+    # "that state opens, passes the structural checks of C01 and answers queries as in C02": the committed state a crash can
+    # expose is whatever a writer leaves in its transaction, so the staleness protocol (C06) and the forest disciplines (C01)
+    # are re-evaluated here rather than assumed
+    from props import C01, C06
+    import premises
+    premises.forest(ctx)
